@@ -205,10 +205,13 @@ type recPlugin struct {
 func (p *recPlugin) hold(name string) {
 	p.mu.Lock()
 	p.ncb[name]++
-	ch := p.gates[fmt.Sprintf("%s#%d", name, p.ncb[name])]
+	k := p.ncb[name]
+	ch := p.gates[fmt.Sprintf("%s#%d", name, k)]
 	p.mu.Unlock()
 	if ch != nil {
 		<-ch
+		// the held callback returns now
+		p.r.tr.emit(event{E: "cbx", P: p.cfg.Name, N: name, K: int64(k)})
 	}
 }
 
@@ -584,6 +587,17 @@ func (r *run) doStep(st stepJ) error {
 			return fmt.Errorf("unknown peer %q", st.Peer)
 		}
 		pl.release(fmt.Sprintf("%s#%d", st.Call, st.W))
+	case "yield":
+		// let other goroutines run for a while without requiring quiescence
+		// (used inside multi steps, where a goroutine may be waiting for a
+		// mutex whose holder is held at a gate)
+		for i := 0; i < 20000; i++ {
+			runtime.Gosched()
+		}
+	case "lisGate":
+		r.lis.gate()
+	case "lisRelease":
+		r.lis.release()
 	case "nop":
 	case "multi":
 		for _, sub := range st.Multi {
@@ -701,6 +715,7 @@ func runScript(t *testing.T, sc scriptJ, w *bufio.Writer) {
 			enc(obsLine{K: "obs", I: i, T: r.tr.nowUnits(), Ev: r.tr.take(), Pend: r.pend()})
 		}
 		// epilogue: open every gate, make sure the server is closed, then judge leaks
+		r.lis.release()
 		for _, pl := range r.plugins {
 			for _, g := range pl.cfg.Gates {
 				pl.release(g)
